@@ -152,4 +152,24 @@ func init() {
 		{Name: "cleanup-removes-nothing", File: mor, Find: "\treturn os.RemoveAll(m.dir)\n}", Replace: "\treturn os.Remove(m.dir)\n}", Rule: "residue", Key: "morass.(*Morass).CleanUp/removes-dir"},
 		{Name: "benign-sticky-inside-seterr", File: mor, Find: "\tm.errLock.Lock()\n\tm._err = err\n\tm.errLock.Unlock()\n", Replace: "\tm.errLock.Lock()\n\tif m._err == nil {\n\t\tm._err = err\n\t}\n\tm.errLock.Unlock()\n", More: []edit{{mor, "\tif err := tf.Sync(); err != nil {\n\t\tm.setErr(err)\n\t}\n", "\tm.setErr(tf.Sync())\n"}}},
 	}
+	const (
+		proc = "concurrent/processor.go"
+		prom = "concurrent/promise.go"
+		gene = "feat/gene/gene.go"
+	)
+	selftests["C19"] = []variant{
+		{Name: "workers-close-on-token-count", File: proc, Find: "\t\t\t\tp.work <- struct{}{}\n\t\t\t\tp.wg.Done()\n", Replace: "\t\t\t\tp.work <- struct{}{}\n\t\t\t\tif len(p.work) == p.threads {\n\t\t\t\t\tclose(p.out)\n\t\t\t\t}\n\t\t\t\tp.wg.Done()\n", More: []edit{{proc, "\tgo func() {\n\t\tp.wg.Wait()\n\t\tclose(p.out)\n\t}()\n", ""}}, Rule: "closeonce", Key: "concurrent.NewProcessor$1$1/close(out)"},
+		{Name: "each-worker-closes", File: proc, Find: "\t\t\t\tp.work <- struct{}{}\n\t\t\t\tp.wg.Done()\n", Replace: "\t\t\t\tp.work <- struct{}{}\n\t\t\t\tp.wg.Done()\n\t\t\t\tclose(p.stop)\n", Rule: "closeonce", Key: "concurrent.NewProcessor$1$1/close(stop)"},
+		{Name: "wait-without-mutex", File: prom, Find: "\tp.m.Lock()\n\tr, set := p.messageState()\n\tfor !set {\n\t\tp.set.Wait()\n\t\tr, set = p.messageState()\n\t}\n\tp.message <- r\n\tp.m.Unlock()\n", Replace: "\tr := <-p.message\n\tp.message <- r\n", Rule: "lockset", Key: "concurrent.(*Promise).Wait/message"},
+		{Name: "wait-puts-back-after-unlock", File: prom, Find: "\tp.message <- r\n\tp.m.Unlock()\n\tf := make(chan Result, 1)", Replace: "\tp.m.Unlock()\n\tp.message <- r\n\tf := make(chan Result, 1)", Rule: "lockset", Key: "concurrent.(*Promise).Wait/message"},
+		{Name: "break-without-mutex", File: prom, Find: "func (p *Promise) Break() {\n\tp.m.Lock()\n\tdefer p.m.Unlock()\n\n\tp.messageState()", Replace: "func (p *Promise) Break() {\n\tp.messageState()", Rule: "lockset", Key: "concurrent.(*Promise).messageState/message"},
+		{Name: "benign-close-under-once", File: proc, Find: "\t\t\t\tp.work <- struct{}{}\n\t\t\t\tp.wg.Done()\n", Replace: "\t\t\t\tp.work <- struct{}{}\n\t\t\t\tp.wg.Done()\n\t\t\t\tif false {\n\t\t\t\t\tvar once sync.Once\n\t\t\t\t\tonce.Do(func() { close(p.stop) })\n\t\t\t\t}\n"},
+		{Name: "benign-atomic-last-closes", File: proc, Find: "\t\t\t\tp.work <- struct{}{}\n\t\t\t\tp.wg.Done()\n", Replace: "\t\t\t\tp.work <- struct{}{}\n\t\t\t\tif atomic.AddInt32(&live, -1) == 0 {\n\t\t\t\t\tclose(done)\n\t\t\t\t}\n\t\t\t\tp.wg.Done()\n", More: []edit{{proc, "\tfor i := 0; i < threads; i++ {\n\t\tp.wg.Add(1)\n", "\tlive, done := int32(threads), make(chan struct{})\n\tfor i := 0; i < threads; i++ {\n\t\tp.wg.Add(1)\n"}, {proc, "import (\n", "import (\n\t\"sync/atomic\"\n"}}},
+	}
+	selftests["C20"] = []variant{
+		{Name: "add-appends-to-receiver", File: gene, Find: "\tnewSlice := make(Exons, 0, len(s)+len(exons))\n\tnewSlice = append(newSlice, s...)\n\tnewSlice = append(newSlice, exons...)\n", Replace: "\tnewSlice := append(s, exons...)\n", Rule: "appendalias", Key: "gene.(Exons).Add/append(s, ...)"},
+		{Name: "setexons-stores-before-check", File: gene, Find: "\tnewExons, err := buildExonsFor(t, exons...)\n\tif err != nil {\n\t\treturn err\n\t}\n\tt.exons = newExons\n\treturn nil", Replace: "\tnewExons, err := buildExonsFor(t, exons...)\n\tt.exons = newExons\n\tif err != nil {\n\t\treturn err\n\t}\n\treturn nil", Rule: "commitlast", Key: "gene.(*CodingTranscript).SetExons/store exons"},
+		{Name: "setfeatures-length-before-zero-check", File: gene, Find: "\tif pos != 0 {\n\t\treturn errors.New(\"no transcript with 0 start on gene\")\n\t}\n\tg.length = end - pos\n", Replace: "\tg.length = end - pos\n\tif pos != 0 {\n\t\treturn errors.New(\"no transcript with 0 start on gene\")\n\t}\n", Rule: "commitlast", Key: "gene.(*Gene).SetFeatures/store length"},
+		{Name: "benign-append-to-clamped-slice", File: gene, Find: "\tnewSlice := make(Exons, 0, len(s)+len(exons))\n\tnewSlice = append(newSlice, s...)\n\tnewSlice = append(newSlice, exons...)\n", Replace: "\tnewSlice := append(s[:len(s):len(s)], exons...)\n"},
+	}
 }
